@@ -456,12 +456,23 @@ func New(ctx context.Context, next http.Handler, config *Config, name string) (h
 func (t *TraefikOidc) initializeMetadata(providerURL string) {
 	t.logger.Debug("Starting provider metadata discovery")
 
-	// Get metadata from cache or fetch it
-	metadata, err := t.metadataCache.GetMetadata(providerURL, t.httpClient, t.logger)
-	if err != nil {
-		t.logger.Errorf("Failed to get provider metadata: %v", err)
-		// Consider retrying or handling this more gracefully
-		return
+	// Get metadata from cache or fetch it. Discovery has its own bounded retry
+	// budget; when that is exhausted the attempt is repeated (with a capped,
+	// growing pause) until the provider answers, so that an outage at start-up
+	// heals without a restart.
+	var metadata *ProviderMetadata
+	for attempt := 0; ; attempt++ {
+		var err error
+		metadata, err = t.metadataCache.GetMetadata(providerURL, t.httpClient, t.logger)
+		if err == nil {
+			break
+		}
+		pause := 30 * time.Second
+		if attempt < 5 {
+			pause = time.Duration(1<<uint(attempt)) * time.Second
+		}
+		t.logger.Errorf("Failed to get provider metadata (will retry in %s): %v", pause, err)
+		time.Sleep(pause)
 	}
 
 	if metadata != nil {
